@@ -94,18 +94,24 @@ class Duration(timedelta):
             weeks,
         )
 
-        # Intuitive normalization
-        total = self.total_seconds() - (years * 365 + months * 30) * SECONDS_PER_DAY
-        self._total = total
+        # Intuitive normalization, in integer microseconds:
+        # going through float seconds is off by one microsecond for large values
+        total_us = (
+            (timedelta.days.__get__(self) - years * 365 - months * 30)
+            * SECONDS_PER_DAY
+            + timedelta.seconds.__get__(self)
+        ) * US_PER_SECOND + timedelta.microseconds.__get__(self)
+        self._total = total_us / US_PER_SECOND
 
         m = 1
-        if total < 0:
+        if total_us < 0:
             m = -1
 
-        self._microseconds = round(total % m * 1e6)
-        self._seconds = abs(int(total)) % SECONDS_PER_DAY * m
+        total_s, us = divmod(abs(total_us), US_PER_SECOND)
+        self._microseconds = us * m
+        self._seconds = total_s % SECONDS_PER_DAY * m
 
-        _days = abs(int(total)) // SECONDS_PER_DAY * m
+        _days = total_s // SECONDS_PER_DAY * m
         self._days = _days
         self._remaining_days = abs(_days) % 7 * m
         self._weeks = abs(_days) // 7 * m
